@@ -27,6 +27,20 @@ func (cs *Case) similarityCheck(routine, tag string, hin, hout, z0, z1 *ref.M) b
 	return cs.band(routine, tag, "sweep-similarity-residual", r.MaxAbs(), fn*eps*scale, nil) && ok
 }
 
+// noZSweepCheck judges H_out = Uᵀ H_in U (wantt = true) when U is not
+// accumulated: Hessenberg structure and the similarity invariants.
+func (cs *Case) noZSweepCheck(routine, tag string, hin, hout *ref.M) bool {
+	ok := true
+	if b := belowSubdiagMax(hout); b != 0 {
+		cs.fail(routine, tag, "result-not-upper-hessenberg", "largest entry below the first subdiagonal %v", b)
+		ok = false
+	}
+	s := pow2Scale(hin.MaxAbs())
+	scale := scaled(hin, s).NormFro()
+	ok = cs.band(routine, tag, "schur-norm-preserved", math.Abs(scaled(hout, s).NormFro()-scale), float64(hin.R)*eps*scale, nil) && ok
+	return cs.similarityInvariants(routine, tag, hin, hout) && ok
+}
+
 func (h *H) checkLaqr5(id string, idx, n int, cls string) {
 	rng := h.c.RNG("laqr5", idx)
 	cs := h.newCase(id, rng)
@@ -45,12 +59,15 @@ func (h *H) checkLaqr5(id string, idx, n int, cls string) {
 				ktop, kbot = 0, n-1
 			}
 			hm := blockStructured(hm0, ktop, kbot)
-			wantt, wantz := true, true
+			wantt, wantz := true, (cfg+idx)%4 != 1 // one configuration in four: full H wanted, Z not
 			pad := (cfg + idx) % 2 * 3
-			tag := fmt.Sprintf("kacc22=%d", kacc22)
+			tag := fmt.Sprintf("kacc22=%d wantz=%v", kacc22, wantz)
 			hb := cs.matFrom("h", hm, pad)
 			z0 := randOrtho(rng, n)
-			zb := cs.matFrom("z", z0, pad)
+			zb := cs.mat("z", 1, 1, 0)
+			if wantz {
+				zb = cs.matFrom("z", z0, pad)
+			}
 			sr, si := make([]float64, nshfts), make([]float64, nshfts)
 			for i := 0; i < nshfts; i += 2 {
 				if rng.Bool() {
@@ -79,6 +96,13 @@ func (h *H) checkLaqr5(id string, idx, n int, cls string) {
 				continue
 			}
 			cs.checkPads("Dlaqr5", tag, hb, zb)
+			if !wantz {
+				if !zb.untouched() {
+					cs.fail("Dlaqr5", tag, "trespass:z:not-referenced", "wantz=false but z was modified")
+				}
+				cs.noZSweepCheck("Dlaqr5", tag, hm, hb.get())
+				continue
+			}
 			cs.similarityCheck("Dlaqr5", tag, hm, hb.get(), z0, zb.get())
 		}
 	}
@@ -107,10 +131,14 @@ func (h *H) checkLaqr23(id string, idx, n int, cls string) {
 			}
 			hm := blockStructured(hm0, ktop, kbot)
 			pad := (cfg + idx) % 2 * 3
-			tag := fmt.Sprintf("recur=%d", recur)
+			wantz := (cfg+idx)%4 >= 2 // half of the configurations: full H wanted, Z not
+			tag := fmt.Sprintf("recur=%d wantz=%v", recur, wantz)
 			hb := cs.matFrom("h", hm, pad)
 			z0 := randOrtho(rng, n)
-			zb := cs.matFrom("z", z0, pad)
+			zb := cs.mat("z", 1, 1, 0)
+			if wantz {
+				zb = cs.matFrom("z", z0, pad)
+			}
 			sr, si := cs.vec(kbot+1), cs.vec(kbot+1)
 			vb := cs.mat("v", nw, nw, pad)
 			nh := nw + (cfg % 3)
@@ -122,7 +150,7 @@ func (h *H) checkLaqr23(id string, idx, n int, cls string) {
 			if lwc == lwQuery {
 				var ok bool
 				lwork, ok = cs.query("Dlaqr23", max(1, 2*nw), false, func(w []float64) {
-					h.impl.Dlaqr23(true, true, n, ktop, kbot, nw, hb.s, hb.ld, 0, n-1, zb.s, zb.ld, sr, si, vb.s, vb.ld, nh, tb.s, tb.ld, nv, wvb.s, wvb.ld, w, -1, recur)
+					h.impl.Dlaqr23(true, wantz, n, ktop, kbot, nw, hb.s, hb.ld, 0, n-1, zb.s, zb.ld, sr, si, vb.s, vb.ld, nh, tb.s, tb.ld, nv, wvb.s, wvb.ld, w, -1, recur)
 				}, hb.s, zb.s)
 				if !ok {
 					continue
@@ -131,7 +159,7 @@ func (h *H) checkLaqr23(id string, idx, n int, cls string) {
 			work := cs.work(lwork)
 			var ns, nd int
 			if !cs.try("Dlaqr23", tag, key("n:"+bucket(n), "nw:"+bucket(nw), "block:"+bucket(kbot-ktop+1), "pad", pad, "lwork", lwc, cls), true, func() {
-				ns, nd = h.impl.Dlaqr23(true, true, n, ktop, kbot, nw, hb.s, hb.ld, 0, n-1, zb.s, zb.ld, sr, si, vb.s, vb.ld, nh, tb.s, tb.ld, nv, wvb.s, wvb.ld, work, lwork, recur)
+				ns, nd = h.impl.Dlaqr23(true, wantz, n, ktop, kbot, nw, hb.s, hb.ld, 0, n-1, zb.s, zb.ld, sr, si, vb.s, vb.ld, nh, tb.s, tb.ld, nv, wvb.s, wvb.ld, work, lwork, recur)
 			}) {
 				continue
 			}
@@ -141,7 +169,14 @@ func (h *H) checkLaqr23(id string, idx, n int, cls string) {
 				continue
 			}
 			hout := hb.get()
-			if !cs.similarityCheck("Dlaqr23", tag, hm, hout, z0, zb.get()) {
+			if !wantz {
+				if !zb.untouched() {
+					cs.fail("Dlaqr23", tag, "trespass:z:not-referenced", "wantz=false but z was modified")
+				}
+				if !cs.noZSweepCheck("Dlaqr23", tag, hm, hout) {
+					continue
+				}
+			} else if !cs.similarityCheck("Dlaqr23", tag, hm, hout, z0, zb.get()) {
 				continue
 			}
 			// Converged eigenvalues sr/si[kbot-nd+1 : kbot+1] are eigenvalues of the
